@@ -329,6 +329,13 @@ def merge_percentiles(finalq, qs, vals, method="lower", Ns=None, raise_on_nan=Tr
                 "interpolation method can only be 'linear', 'lower', "
                 "'higher', 'midpoint', or 'nearest'"
             )
+    # A reported value is weighted by the share of the data *below* it, so the
+    # per-chunk minima (q = 0) carry no weight and tie with larger values; the
+    # extremes are known exactly whenever every chunk reported them.
+    if all(q[0] == 0 for q in qs):
+        rv[finalq == 0] = combined_vals[0]
+    if all(q[-1] == 100 for q in qs):
+        rv[finalq == 100] = combined_vals[-1]
     return rv
 
 
